@@ -220,12 +220,27 @@ def addrset(s):
 
 
 # ------------------------------------------------------------------------------------------ inner
-def inner(ctx, d, exe, genfacts, nprog, nsnip):
+def noimport_workload():
+    """harness/c02_prims.scm with (verif-gc) calls spread over it: needs no compiled library"""
+    out, k = [], 0
+    for line in open(os.path.join(HERE, "..", "harness", "c02_prims.scm")):
+        out.append(line)
+        if line.startswith("(show"):
+            k += 1
+            if k % 9 == 0:
+                out.append("(verif-gc)\n")
+    out.append("(define (deep2 n) (if (= n 0) (begin (verif-gc) '()) (cons (number->string n) (deep2 (- n 1)))))\n(show (length (deep2 60)))\n(verif-gc)\n")
+    return "".join(out)
+
+
+def inner(ctx, d, exe, genfacts, nprog, nsnip, only_noimport=False):
     emb = B.cc_embed(d, HARNESS, os.path.join(d, "embed_c02"))
     work = os.path.join(B.SCRATCH, "tmp_c02_work")
     os.makedirs(work, exist_ok=True)
-    progs = []
-    if os.path.isdir(CORPUS):
+    progs = [("prims", noimport_workload(), None)]
+    if only_noimport:
+        nprog = 0
+    elif os.path.isdir(CORPUS):
         for f in sorted(os.listdir(CORPUS)):
             if f.endswith(".scm") and f.startswith("inner"):
                 progs.append((f, open(os.path.join(CORPUS, f)).read(), None))
@@ -241,9 +256,7 @@ def inner(ctx, d, exe, genfacts, nprog, nsnip):
         dump = os.path.join(work, "inner-%s.dump" % name)
         r = subprocess.run([emb, src, dump], capture_output=True, text=True, env=B.chibi_env(d), timeout=600)
         replay = "LD_LIBRARY_PATH=%s CHIBI_MODULE_PATH=%s/lib %s %s %s" % (d, d, emb, src, dump)
-        if r.returncode != 0:
-            ctx.violation("inner:workload-died", input=src, observed="rc=%s %s" % (r.returncode, r.stderr[-400:]), expected="workload runs to the end", replay=replay)
-            continue
+        died = r.returncode != 0
         try:
             dumps = parse_dumps(dump)
         except Exception as e:
@@ -325,13 +338,15 @@ def inner(ctx, d, exe, genfacts, nprog, nsnip):
                 ctx.sample(dict(kind="inner", workload=name, gc=dp.gcno, objects=len(dp.objs), marked=len(dp.marks),
                                 freed=len(dp.objs) - len(post), registered_locals=sum(len(v[6] or []) for v in dp.objs.values()),
                                 runtime_types=max(dp.types) + 1 - ncore))
-        # the workload's own checksum lines must not say the data changed across collections
-        os.unlink(dump)
+        if died and not ctx.violations:
+            ctx.violation("inner:workload-died", input=src, observed="rc=%s %s" % (r.returncode, r.stderr[-400:]), expected="workload runs to the end", replay=replay)
+        if os.path.exists(dump):
+            os.unlink(dump)
     return ncoll
 
 
 # ------------------------------------------------------------------------------------------ outer
-def run_prog(d, path, sched=None, early=False, timeout=600):
+def run_prog(d, path, sched=None, early=False, timeout=240):
     env = {}
     if sched:
         env["CHIBI_VERIF_GC"] = sched
@@ -345,7 +360,7 @@ def run_prog(d, path, sched=None, early=False, timeout=600):
 
 
 def asan_top(err):
-    m = re.search(r"ERROR: AddressSanitizer: ([a-z-]+)", err)
+    m = re.search(r"ERROR: AddressSanitizer: ([A-Za-z-]+)", err)
     if not m:
         return None
     frames = re.findall(r"#\d+ 0x[0-9a-f]+ in (\w+)", err)
@@ -476,7 +491,18 @@ def run(ctx):
                        "something freed, registered C locals present; distinct by (program, gc#, #objects, #marked). "
                        "outer: one case = (generated program, forced-collection schedule: 8/64 consecutive allocations at a random point, seeded random, "
                        "every n-th) under ASan with poisoned free chunks; output compared with the unforced run")
-    d = ctx.build("default")
+    partial = False
+    try:
+        d = ctx.build("default")
+    except B.BuildError:
+        # the tree no longer builds to the end (typically: the freshly built chibi-scheme crashes while
+        # the Makefile runs it).  If the core library exists, still run the inner correspondence on
+        # workloads that need no compiled library, to turn the breakage into a concrete failing input.
+        d = os.path.join(B.SCRATCH, "default-" + B.source_hash())
+        if not (os.path.exists(os.path.join(d, "libchibi-scheme.so")) and os.path.exists(os.path.join(d, "lib", "init-7.scm"))):
+            raise
+        partial = True
+        ctx.note("default build incomplete; inner correspondence run on the partial build " + d)
     from gen import c02_layout
     try:
         facts = c02_layout.regen(ctx, d)
@@ -495,8 +521,10 @@ def run(ctx):
         ni, si, no, so, ns, dense = 2, 5, 3, 4, 3, None
     import time
     t0 = time.time()
-    nc = inner(ctx, d, exe, facts, ni, si)
+    nc = inner(ctx, d, exe, facts, ni, si, only_noimport=partial)
     t1 = time.time()
+    if partial:
+        return
     da = ctx.build("asan")
     t2 = time.time()
     nr = outer(ctx, da, no, so, ns, dense)
